@@ -4,7 +4,7 @@ from ..macmodel import check_history
 from .. import oracle as o
 
 ID = 'C09'
-RULE = ('one record per history of {input(chunk), result, raw_result, reset, clone} on HMAC (6 digests), Poly1305, keyed BLAKE2b/2s through the Mac '
+RULE = ('one record per history of {input(chunk), result, raw_result, reset, clone, clone_from} on HMAC (6 digests), Poly1305, keyed BLAKE2b/2s through the Mac '
         'trait and every legacy digest through the Digest trait; model = (key, bytes since reset, finalized, last result): a first result must '
         'be the MAC/digest of the bytes since reset (same key after reset), a repeated result must be identical or panic, input after result must '
         'panic; the legacy BLAKE2 objects are also reset / re-keyed through their own reset() and reset_with_key() (empty and non-empty keys) between trait resets; a result() refused for a wrong-sized buffer is caught and the same object is used again (it may then panic or answer correctly, never anything else); exhaustive histories to depth 3 (quick) / 4 (thorough) over an 8-symbol alphabet plus random histories to length 30; '
@@ -26,6 +26,11 @@ def render(rng, seq, bs, can_clone, outlen, op0):
     steps = []
     cur, nobj = 0, 1
     for sym in seq:
+        if sym == 'c' and can_clone and nobj > 1 and rng.below(3) == 0:
+            # instead of a fresh clone: overwrite the current object with another existing one through clone_from
+            src = rng.choice([x for x in range(nobj) if x != cur])
+            steps.append('cf.%d.%d' % (cur, src))
+            continue
         if sym[0] == 'i':
             steps.append('i.%d.%s' % (cur, rng.data(sym[1])))
         elif sym == 'r':
